@@ -5,6 +5,7 @@ import Dagrt.Driver.C04
 import Dagrt.Driver.C05
 import Dagrt.Driver.C08
 import Dagrt.Driver.C02
+import Dagrt.Driver.C20
 open Lean Dagrt.Driver
 
 def dispatch (j : Json) : R Json := do
@@ -16,6 +17,7 @@ def dispatch (j : Json) : R Json := do
   | ["C04", o] => C04.handle o j
   | ["C08", o] => C08.handle o j
   | ["C10", o] => C10.handle o j
+  | ["C20", o] => C20.handle o j
   | ["C14", o] => Kinds.handle o j
   | ["C09", o] => Kinds.handle o j
   | _ => throw s!"unknown op {op}"
